@@ -551,12 +551,12 @@ pub fn par_enter(t: u8, call: Call) {
         let e = en[s.ch.choose(en.len())];
         s.step_entity(e);
     }
-    // pre-emption by other parent threads.  A thread that was handed the baton this way is not
-    // itself pre-empted by threads (it runs until it blocks), so hand-overs cannot ping-pong.
+    // pre-emption by other parent threads: a bounded number of hand-overs per call; every
+    // possession of the baton executes at least one call, so hand-overs cannot livelock.
     let s = sim();
-    if s.threads.len() > 1 && s.poisoned.is_none() && s.handoff_depth == 0 {
+    if s.threads.len() > 1 && s.poisoned.is_none() {
         let greedy = matches!(s.personality, Personality::ChildGreedy | Personality::Bursty);
-        let mut rounds = if s.ch.choose(3) == 0 { 0 } else if greedy { 4 } else { 1 };
+        let mut rounds = if s.ch.choose(3) == 0 { 0 } else if greedy { 2 } else { 1 };
         while rounds > 0 {
             rounds -= 1;
             let s = sim();
@@ -569,9 +569,7 @@ pub fn par_enter(t: u8, call: Call) {
             }
             let u = others[s.ch.choose(others.len())];
             s.threads[t as usize].state = TState::Runnable;
-            s.handoff_depth += 1;
             switch_to(t, u);
-            sim().handoff_depth -= 1;
         }
     }
 }
